@@ -168,6 +168,7 @@ def repeater_number(scanner: Scanner):
         base = 1
         parent = 0
 
+        modifiers = scanner.pos
         if scanner.eat(Chars.At):
             # Consume numbering modifiers
             while scanner.eat(Chars.Climb):
@@ -177,6 +178,10 @@ def repeater_number(scanner: Scanner):
             scanner.start = scanner.pos
             if scanner.eat_while(is_number):
                 base = to_int(scanner)
+
+            if scanner.pos == modifiers + 1:
+                # Lone `@` is not a modifier, it’s a text: `user$@example.com`
+                scanner.pos = modifiers
 
         scanner.start = start
         return tokens.RepeaterNumber(size, reverse, base, parent, start, scanner.pos)
